@@ -365,3 +365,11 @@ func Render(p *Program, o RenderOpts) (string, error) {
 	r.block(&b, p.Body, "")
 	return b.String(), r.err
 }
+
+// RenderExpr renders one expression tree (no program context needed unless
+// it contains patterns).
+func RenderExpr(n *Node, o RenderOpts) (string, error) {
+	r := &renderer{p: &Program{}, o: o}
+	s := r.expr(n)
+	return s, r.err
+}
